@@ -103,8 +103,8 @@ ADD = {
     "C04": SHIPPED, "C05": SHIPPED + " Every child list of shipped-registry scans (decoder-supplied sub-structure included) is checked for laminarity on the implementation side.", "C06": SHIPPED,
     "C07": SHIPPED + " The first clause is also checked on the shipped registry by recording every call of a decoder function (through the registry and through the module globals).", "C08": SHIPPED + " Implementation side: every decoded node of shipped-registry scans is re-scanned on its own by the unwrapped scanner.",
     "C10": RT + ": URLs without escapes / dot segments and domains under the regenerated TLD table are reported verbatim and unlabelled.",
-    "C11": " Matcher OFFSET INDEPENDENCE (Regex/LocalityProofs.v: what is matched from a position on depends only on the following text and the last lb_width bytes before it, and shifts with the offset; lb_width of the indicator patterns computed by name)." + RT + ": IPv4 addresses, domains, e-mail addresses, .exe / .dll names, POSIX paths, CreateObject calls, simple URLs with query / fragment, drive paths.",
-    "C12": RT + ": for the simple URL class the reported node has exactly the scheme / domain / path / query / fragment children at the positions of those components; drive paths with their file-name child.",
+    "C11": " Matcher OFFSET INDEPENDENCE (Regex/LocalityProofs.v: what is matched from a position on depends only on the following text and the last lb_width bytes before it, and shifts with the offset; lb_width of the indicator patterns computed by name)." + RT + ": IPv4 addresses, domains, e-mail addresses, .exe / .dll names, POSIX paths, CreateObject calls, simple URLs with query / fragment, URLs with an explicit port (1-4 digits) or a canonical IPv4 host (Proofs/RoundTrip8.v), drive paths, UNC paths (Proofs/RoundTrip9.v).",
+    "C12": RT + ": for the simple URL class the reported node has exactly the scheme / domain / path / query / fragment children at the positions of those components (with an explicit port: scheme / domain / path, the path after the port; with a canonical IPv4 host: network.ip host child - Proofs/RoundTrip8.v); drive paths with their file-name child; UNC paths with the host child at 2 .. 2+|host| of the value and the file-name children (Proofs/RoundTrip9.v).",
     "C13": " CONVERSE proved end to end" + RT[len(" END-TO-END round trips"):] + ": the four call forms, bare lower / upper hex (the F11 hypothesis made exact and shown necessary) and bare base64 incl. LF / CR LF wrapping.",
     "C14": RT + ": unescape, UTF-16LE, decimal XML references.",
     "C15": RT + ": reverse / StrReverse, the three replace dialects (py_replace_inverse: the token trick is undone), n-ary concatenation chains.",
